@@ -73,8 +73,72 @@ def boot():
 
     import radical.pilot as rp
 
+    _track_env_children(ru)
+
     # the import must have come from the working tree
     rp_file = os.path.realpath(rp.__file__)
     assert rp_file.startswith(os.path.realpath(src)), rp_file
 
     return rp, ru
+
+
+# ------------------------------------------------------------------------------
+#
+# `ru.EnvProcess.__enter__` (used by every LaunchMethod constructor) forks a
+# helper which exits after one queue put and is never waited for.  A pilot
+# creates a handful; a check shard creates one per generated environment and
+# runs for minutes, so thousands of zombies pile up and exhaust the pid space
+# (fork then fails with EAGAIN in *other* processes).  Remember those pids and
+# reap exactly them; never waitpid(-1), which would steal the exit status of
+# the task processes the executor watches.
+_env_children = list()
+
+
+def _track_env_children(ru):
+
+    try:
+        import radical.utils.env as m_env
+    except Exception:
+        return
+    if getattr(m_env.EnvProcess, '_rpverif_tracked', False):
+        return
+    orig_enter = m_env.EnvProcess.__enter__
+
+    def tracked_enter(self):
+        # run the original with os.fork (as seen from that module) recording
+        # the child's pid
+        real_fork = m_env.os.fork
+
+        class _OS(object):
+            def __getattr__(s, name):
+                return getattr(os, name)
+            def fork(s):
+                pid = real_fork()
+                if pid:
+                    _env_children.append(pid)
+                return pid
+        saved, m_env.os = m_env.os, _OS()
+        try:
+            return orig_enter(self)
+        finally:
+            m_env.os = saved
+
+    m_env.EnvProcess.__enter__ = tracked_enter
+    m_env.EnvProcess._rpverif_tracked = True
+
+
+def reap_env_children():
+    '''non-blocking: collect the EnvProcess helpers which have exited'''
+    n = 0
+    for pid in list(_env_children):
+        try:
+            done, _ = os.waitpid(pid, os.WNOHANG)
+        except ChildProcessError:
+            done = pid
+        except OSError:
+            continue
+        if done:
+            try: _env_children.remove(pid)
+            except ValueError: pass
+            n += 1
+    return n
